@@ -4,6 +4,7 @@ import (
 	"encoding/json"
 	"fmt"
 	"go/ast"
+	"go/constant"
 	"go/token"
 	"go/types"
 	"os"
@@ -48,6 +49,7 @@ type Run struct {
 	model *Model
 	deep  *Deep
 
+	attrMemo  map[*Func]map[string]bool
 	chanMemo  []chanSite
 	entryMemo map[*Func]lockset
 	callSites map[*Func][]callSite
@@ -67,11 +69,24 @@ func (r *Run) Paths(fn *Func) []Path {
 	}
 	all := r.E.Paths(fn)
 	var out []Path
+	saved := r.P.cur
 	for i := range all {
 		path := &all[i]
+		r.P.SetPath(path)
 		dead := false
+		seenFact := map[string]factObs{}
 		for j, ev := range path.Events {
-			if ev.Kind != EvGuard {
+			if ev.Kind != EvGuard || ev.Cond == nil || (ev.GKind != GIf && ev.GKind != GFor) {
+				continue
+			}
+			// only conditions that can carry one of the facts below: nil tests, boolean locals, calls
+			switch c := ast.Unparen(ev.Cond).(type) {
+			case *ast.BinaryExpr:
+				if (c.Op != token.EQL && c.Op != token.NEQ) || !(isNilIdent(ev.Fn.Info(), c.X) || isNilIdent(ev.Fn.Info(), c.Y)) {
+					continue
+				}
+			case *ast.Ident, *ast.CallExpr:
+			default:
 				continue
 			}
 			g := r.Classify(path, j)
@@ -79,13 +94,173 @@ func (r *Run) Paths(fn *Func) []Path {
 				dead = true
 				break
 			}
+			if r.contradictsHelperResult(path, j) {
+				dead = true
+				break
+			}
+			// the same fact about the connection (joined / nil-ness of the same source) observed with two
+			// outcomes without an assignment to that source in between
+			if strings.HasPrefix(g.Subject, "joined:") || strings.HasPrefix(g.Subject, "nil:recv.") {
+				if prev, ok := seenFact[g.Subject]; ok && prev.outcome != g.Outcome && !r.assignedBetween(path, prev.idx, j, g.Subject) {
+					dead = true
+					break
+				}
+				seenFact[g.Subject] = factObs{g.Outcome, j}
+			}
 		}
 		if !dead {
 			out = append(out, *path)
 		}
 	}
+	r.P.cur = saved
+	if len(out) == len(all) {
+		out = all // nothing pruned: share the engine's slice
+	}
 	r.feasible[fn] = out
 	return out
+}
+
+// contradictsHelperResult: the guard tests a value returned by a helper that was looked into on this
+// path, and the outcome contradicts what the helper is seen to return there (a literal nil / true /
+// false, or a variable whose value the helper itself tested).
+func (r *Run) contradictsHelperResult(path *Path, j int) bool {
+	ev := path.Events[j]
+	if ev.GKind != GIf && ev.GKind != GFor || ev.Cond == nil {
+		return false
+	}
+	fn := ev.Fn
+	info := fn.Info()
+	cond := ast.Unparen(ev.Cond)
+	// resolve (expr, wantNil?) forms
+	resultOf := func(x ast.Expr) (ast.Expr, *Func, bool) {
+		x = ast.Unparen(x)
+		if call, ok := x.(*ast.CallExpr); ok {
+			if res, rfn, ok := r.P.inlinedResults(fn, call); ok && len(res) == 1 {
+				return res[0], rfn, true
+			}
+			return nil, nil, false
+		}
+		id, ok := x.(*ast.Ident)
+		if !ok {
+			return nil, nil, false
+		}
+		obj := info.Uses[id]
+		if obj == nil {
+			return nil, nil, false
+		}
+		rhs, idx, ok := lastDefOnPath(fn, path, j, obj)
+		if !ok || rhs == nil {
+			return nil, nil, false
+		}
+		res, rfn, ok := r.P.inlinedResults(fn, rhs)
+		if !ok || idx >= len(res) {
+			return nil, nil, false
+		}
+		return res[idx], rfn, true
+	}
+	switch v := cond.(type) {
+	case *ast.BinaryExpr:
+		if v.Op != token.EQL && v.Op != token.NEQ {
+			return false
+		}
+		var other ast.Expr
+		if isNilIdent(info, v.Y) {
+			other = v.X
+		} else if isNilIdent(info, v.X) {
+			other = v.Y
+		} else {
+			return false
+		}
+		res, rfn, ok := resultOf(other)
+		if !ok {
+			return false
+		}
+		isNil, known := r.knownNil(path, rfn, res)
+		if !known {
+			return false
+		}
+		saysNil := (v.Op == token.EQL) == ev.Val
+		return saysNil != isNil
+	case *ast.Ident, *ast.CallExpr:
+		res, rfn, ok := resultOf(cond)
+		if !ok {
+			return false
+		}
+		val, known := r.knownTruth(path, rfn, res)
+		if !known {
+			return false
+		}
+		return val != ev.Val
+	}
+	return false
+}
+
+func (r *Run) knownNil(path *Path, rfn *Func, x ast.Expr) (isNil, known bool) {
+	info := rfn.Info()
+	if isNilIdent(info, x) {
+		return true, true
+	}
+	id, ok := ast.Unparen(x).(*ast.Ident)
+	if !ok {
+		if call, isCall := ast.Unparen(x).(*ast.CallExpr); isCall {
+			// the helper returns what another looked-into helper returned
+			if res, rfn2, ok := r.P.inlinedResults(rfn, call); ok && len(res) >= 1 {
+				return r.knownNil(path, rfn2, res[len(res)-1])
+			}
+		}
+		return false, false
+	}
+	obj := info.Uses[id]
+	for i, ev := range path.Events {
+		if ev.Kind != EvGuard || ev.Fn != rfn || ev.Cond == nil {
+			continue
+		}
+		_ = i
+		if be, ok := ast.Unparen(ev.Cond).(*ast.BinaryExpr); ok && (be.Op == token.EQL || be.Op == token.NEQ) {
+			var o ast.Expr
+			if isNilIdent(info, be.Y) {
+				o = be.X
+			} else if isNilIdent(info, be.X) {
+				o = be.Y
+			}
+			if oid, ok := o.(*ast.Ident); ok && o != nil && info.Uses[oid] == obj {
+				saysNil := (be.Op == token.EQL) == ev.Val
+				isNil, known = saysNil, true
+			}
+		}
+	}
+	return
+}
+
+func (r *Run) knownTruth(path *Path, rfn *Func, x ast.Expr) (val, known bool) {
+	info := rfn.Info()
+	x = ast.Unparen(x)
+	neg := false
+	for {
+		if u, ok := x.(*ast.UnaryExpr); ok && u.Op == token.NOT {
+			x = ast.Unparen(u.X)
+			neg = !neg
+			continue
+		}
+		break
+	}
+	if tv, ok := info.Types[x]; ok && tv.Value != nil && tv.Value.Kind() == constant.Bool {
+		return constant.BoolVal(tv.Value) != neg, true
+	}
+	id, ok := x.(*ast.Ident)
+	if !ok {
+		return false, false
+	}
+	obj := info.Uses[id]
+	for _, ev := range path.Events {
+		if ev.Kind != EvGuard || ev.Fn != rfn || ev.Cond == nil {
+			continue
+		}
+		if cid, ok := ast.Unparen(ev.Cond).(*ast.Ident); ok && info.Uses[cid] == obj {
+			val, known = ev.Val != neg, true
+		}
+	}
+	return
 }
 
 // neverFails: repo function with an error result whose every return yields a literal nil error.
@@ -126,7 +301,11 @@ func (r *Run) neverFails(f *types.Func) bool {
 }
 
 func NewRun(p *Program, prop, tier string, seed int) *Run {
-	return &Run{P: p, E: NewEngine(p), Prop: prop, Tier: tier, Seed: seed, Start: time.Now(), RuleSites: map[string]int{},
+	if p.engine == nil {
+		p.engine = NewEngine(p)
+	}
+	p.cur = nil
+	return &Run{P: p, E: p.engine, deep: p.deepShared, Prop: prop, Tier: tier, Seed: seed, Start: time.Now(), RuleSites: map[string]int{},
 		Funcs: map[string]bool{}, seenOb: map[string]bool{}, feasible: map[*Func][]Path{}, neverErr: map[*types.Func]int{}}
 }
 
@@ -428,3 +607,35 @@ func (r *Run) broken() bool {
 
 // at makes provenance queries path-aware for the path being examined.
 func (r *Run) at(path *Path) { r.P.SetPath(path) }
+
+type factObs struct {
+	outcome string
+	idx     int
+}
+
+// assignedBetween: some assignment between two events writes the source the fact is about.
+func (r *Run) assignedBetween(path *Path, from, to int, subject string) bool {
+	src := strings.TrimPrefix(strings.TrimPrefix(subject, "joined:"), "nil:")
+	if !strings.HasPrefix(src, "recv.") {
+		src = "recv." + src
+	}
+	for k := from + 1; k < to; k++ {
+		ev := path.Events[k]
+		if ev.Kind == EvAssign {
+			for _, l := range ev.Lhs {
+				if r.P.Canon(ev.Fn, l) == src {
+					return true
+				}
+			}
+		}
+		// a call into code that is not looked into may assign it
+		if ev.Kind == EvCall {
+			if f, ok := ev.Callee.(*types.Func); ok && isRepoPkg(f.Pkg()) && !f.Exported() {
+				if k+1 >= len(path.Events) || !(path.Events[k+1].Kind == EvEnter && path.Events[k+1].Helper) {
+					return true
+				}
+			}
+		}
+	}
+	return false
+}
